@@ -8,7 +8,7 @@ def main(tier, replay=None):
     res = Result("C16", tier, "model_checking")
     nconf = vk_conformance(tier)   # the model is compared with the real kernel before anything is concluded from it
     q = tier == "quick"
-    P = 2 if q else 3
+    P = 2 if q else 4
     common = ["signals=0", "verdicts=K", "reorder=1"]
     fams = [
         dict(scn="c16", name="A-startup-scan-vs-injector", opts=["scenario=A", "msgs=l1"] + common, bounds="%d,0,0,1" % (P + 1), total=P + 2),
